@@ -313,7 +313,7 @@ def run_case(case):
         if case.get('outcome_only'):
             # robustness stream (C14): inputs outside the domain of the model (e.g. calendars whose validity bounds
             # carry a time of day); only the outcome class of calc is observed
-            if case.get('task_aware'):
+            if 'task_aware' in case:
                 # a user-defined resource whose capacity depends on the TASK it is asked for (IResource passes the task):
                 # no capacity for the listed (task id, day) pairs, the calendar's answer otherwise
                 blocked = set((tid, d) for tid, d in case['task_aware'])
